@@ -35,11 +35,15 @@ def zoo():
     Z['tric'] = (crystal.Crystal(np.array([[1, .1, .2], [0, 1.1, .15], [0, 0, .9]]), [np.zeros(3)]), 0, 1.15)
     Z['mono2'] = (crystal.Crystal(np.array([[1, 0, .2], [0, 1.1, 0], [0, 0, .9]]),
                                   [np.zeros(3), np.array([.5, .5, .5])]), 0, 0.95)
+    # polar site symmetry (non-empty vector basis => origin states, non-zero bare-vacancy bias correction)
+    Z['pol3'] = (crystal.Crystal(np.eye(3), [np.zeros(3), np.array([.45, .45, .45])]), 0, 0.96)
+    Z['pol2'] = (crystal.Crystal(np.array([[1, .5], [0, _S3 / 2]]), [np.zeros(2), np.array([.3, .3])]), 0, 1.01)
     return Z
 
 
 QUICK_NAMES = ['sq', 'tri', 'hon', 'sc', 'fcc', 'bcc', 'hcp', 'b2', 'dia', 'rect2', 'tric']
-ALL_NAMES = QUICK_NAMES + ['b2B', 'mono2', 'tet3']
+ALL_NAMES = QUICK_NAMES + ['b2B', 'mono2', 'tet3', 'pol3', 'pol2']
+ORIGIN_STATE_NAMES = ['rect2', 'pol2', 'pol3']     # len(OSindices) > 0
 
 _Z = None
 _VM = {}
